@@ -74,7 +74,10 @@ if brows:
     out.append("behaviour outside every quantifier) that keep every property, with an argument per property. Each was applied in a")
     out.append("scratch worktree, the repository's tests re-run, and the quick tier of ALL 18 checks run (`tools/try_benign.sh`).")
     out.append("An alarm here is a false alarm of the machinery unless the change turns out to break a property after all; the")
-    out.append("bring-up log (section 15) records what was found and corrected.\n")
+    out.append("bring-up log (section 15) records what was found and corrected. After the additions of rounds 8 and 9 twelve of")
+    out.append("the changes (those touching markers, recursive derives, validation, de-duplication, alloc paths, field lists)")
+    out.append("were run again against the checks whose code had changed: 139 check runs, all silent")
+    out.append("(`benign/summary_round3_subset.txt`; the table shows the full 18-check runs).\n")
     out.append("| change | what it does | what changes observably | result |")
     out.append("|---|---|---|---|")
     for r in brows: out.append("| "+" | ".join(r)+" |")
